@@ -577,6 +577,19 @@ impl<'a, 'tcx> Visitor<'tcx> for BV<'a, 'tcx> {
                         }
                     }
                 }
+                // arithmetic / comparisons / negation: the result is *derived from* (not an alias of) each operand
+                let derived: Vec<&Place<'tcx>> = match rv {
+                    Rvalue::BinaryOp(_, ops) => [&ops.0, &ops.1]
+                        .into_iter()
+                        .filter_map(|o| if let Operand::Copy(p) | Operand::Move(p) = o { Some(p) } else { None })
+                        .collect(),
+                    Rvalue::UnaryOp(_, Operand::Copy(p) | Operand::Move(p)) => vec![p],
+                    _ => vec![],
+                };
+                for p in derived {
+                    let s = format!("[\"der\",\"_{}\",{}]", place.local.as_usize(), esc(&self.place_str(p)));
+                    self.push(loc.block, s);
+                }
             }
         }
         self.super_statement(st, loc);
